@@ -22,19 +22,20 @@ const modPath = "github.com/drand/drand/v2"
 
 // Prog is the resolved program every rule works on.
 type Prog struct {
-	Repo    string
-	Tags    string
-	Fset    *token.FileSet
-	Pkgs    []*packages.Package          // root packages
-	ByPath  map[string]*packages.Package // every loaded package
-	SSA     *ssa.Program
-	AllFns  map[*ssa.Function]bool
-	cg      *callgraph.Graph
-	fnIndex map[string]*ssa.Function
-	Flatten *flattenStats
-	LoadS   float64
-	SSAS    float64
-	CGS     float64
+	Repo     string
+	Tags     string
+	Fset     *token.FileSet
+	Pkgs     []*packages.Package          // root packages
+	ByPath   map[string]*packages.Package // every loaded package
+	SSA      *ssa.Program
+	AllFns   map[*ssa.Function]bool
+	Threaded int // phi uses replaced by their only feasible operand
+	cg       *callgraph.Graph
+	fnIndex  map[string]*ssa.Function
+	Flatten  *flattenStats
+	LoadS    float64
+	SSAS     float64
+	CGS      float64
 }
 
 // controlsDir is where the overlay control package is injected (nothing is written to /repo).
@@ -169,6 +170,13 @@ func loadProg(repo, tags string, controls map[string][]byte) (*Prog, error) {
 	for fn := range p.AllFns {
 		p.fnIndex[fnKey(fn)] = fn
 	}
+	if os.Getenv("VERIF_NO_THREAD") == "" {
+		for fn := range p.AllFns {
+			if fn.Blocks != nil && inModule(fnPkgPath(fn)) {
+				p.Threaded += threadPhis(fn)
+			}
+		}
+	}
 	p.SSAS = time.Since(t1).Seconds()
 	return p, nil
 }
@@ -291,7 +299,7 @@ func addWithAnons(set map[*ssa.Function]bool, f *ssa.Function) {
 }
 
 // flattenVerifDir: where the baseline function inventory lives ("" disables flattening).
-var flattenVerifDir = ""
+var flattenVerifDir = "/verif"
 
 func moduleHasTypeErrors(pkgs []*packages.Package) bool {
 	bad := false
